@@ -1,0 +1,16 @@
+//go:build verif
+
+package verifhook
+
+import (
+	"github.com/emmansun/gmsm/internal/sm2ec"
+)
+
+type SM2P256Point = sm2ec.SM2P256Point
+
+var (
+	NewSM2P256Point = sm2ec.NewSM2P256Point
+	P256OrdInverse  = sm2ec.P256OrdInverse
+	P256OrdMul      = sm2ec.P256OrdMul
+	ImplicitSig     = sm2ec.ImplicitSig
+)
